@@ -62,7 +62,9 @@ def run_limit(gname, kname, z0, method, path, order, ratio, residue_p=None):
         with np.errstate(all='ignore'):
             if residue_p is None:
                 f = make_f(gname, kname, z0)
-                obj = Limit(f, method=method, order=order, full_output=True, path=path, step_ratio=ratio)
+                # even orders are handed over as numpy integers
+                obj = Limit(f, method=method, order=order if order % 2 else np.int64(order), full_output=True, path=path,
+                            step_ratio=ratio)
             else:
                 g = G[gname][0]
                 p = residue_p
@@ -388,7 +390,8 @@ def work_readonly(chunk):
 # ---------------------------------------------------------------------------------------------
 # narrow g: g(z) = exp(-((z - z0)/sigma)^2) cos(z - z0), g(z0) = 1, sigma down to 2e-5.  At the largest steps g
 # underflows to exactly 0, so the first extrapolated rows are identically 0 (and agree with each other perfectly);
-# the reported estimate must still cover the error of whatever is returned.
+# the reported estimate must still cover the error of whatever is returned.  Default steps only: a user step is the SMALLEST
+# step of the sequence (0.125 means steps 0.125 .. 0.125 * 4^24), which never samples a narrow g - nothing to claim there.
 
 NARROW_SIGMAS = [3e-3, 1e-3, 1e-4, 2e-5]
 NARROW_Z0 = [0.0, 0.3, -2.0, 0.3 + 0.4j]
